@@ -1,6 +1,7 @@
 package checks
 
 import (
+	"bytes"
 	"fmt"
 	"math/big"
 	"time"
@@ -9,6 +10,8 @@ import (
 	"github.com/idena-network/idena-go/blockchain/types"
 	"github.com/idena-network/idena-go/blockchain/validation"
 	"github.com/idena-network/idena-go/common"
+	"github.com/idena-network/idena-go/config"
+	"github.com/idena-network/idena-go/core/state"
 	"github.com/idena-network/idena-go/stats/collector"
 
 	"verif/sim/scen"
@@ -20,7 +23,7 @@ func init() {
 	vfw.Register(&vfw.Check{
 		ID:    "C14",
 		Level: "exploration",
-		Rule: "one case = one schedule of 5-10 tasks over one real TxPool + chain: 2-4 client tasks submit transactions (in and out of nonce order, duplicates of each other's transactions, internal and external path, priority types), the engine task takes candidate lists, proposes and inserts blocks (ResetTo) - some of them built by a second node of the same operator from same-nonce variants of the pool's transactions -, submitter tasks are made runnable exactly when a block is inserted, a sync task toggles StartSync/StopSync, a query task reads by hash and address; every cooperative lock acquisition is a scheduling point decided by the tape; a dead-lock of the tasks is a violation; " +
+		Rule: "one case = one schedule of 5-10 tasks over one real TxPool + chain: 2-4 client tasks submit transactions (in and out of nonce order, duplicates of each other's transactions, internal and external path, priority types), the engine task takes candidate lists, proposes and inserts blocks (ResetTo) - some of them built by a second node of the same operator from same-nonce variants of the pool's transactions -, submitter tasks are made runnable exactly when a block is inserted, a sync task toggles StartSync/StopSync, a query task reads by hash and address; one run in three crosses a validation ceremony and the epoch switch behind it (priority ceremony types next to transfers, transactions signed for the next epoch ahead of the switch, free priority transactions and paid transfers of a quarter to a half of the block gas cap, so that candidate lists reach the cap); every cooperative lock acquisition is a scheduling point decided by the tape; a dead-lock of the tasks is a violation; " +
 			"non-trivial = >= 2 blocks with transactions were built from the pool while client tasks were still submitting; distinct by the task-switch sequence (history fingerprint)",
 		Real: []string{"core/mempool.TxPool (add, put, Remove, ResetTo, movePendingTxsToExecutable, BuildBlockTransactions, StartSync/StopSync)", "core/mempool block builder", "core/state.NonceCache", "blockchain.ProposeBlock / AddBlock", "blockchain/validation"},
 		Stub: []string{"tx keeper file persistence (off, as in upstream tests)", "push tracker loops of the pool (not started)", "gossip of accepted transactions"},
@@ -35,10 +38,16 @@ func init() {
 }
 
 func runC14(r *vfw.Run) {
-	o := scen.Opts{MinIdent: 3, MaxIdent: 8, Versions: nil}
+	t := r.Tape
+	// one run in three crosses a validation ceremony and the epoch switch behind it: priority (ceremony) transaction types,
+	// transactions signed for the next epoch, and transactions of a quarter to a half of the block gas cap
+	cerem := t.ChooseOpt("c14.ceremony", 3) == 2
+	o := scen.Opts{MinIdent: 3, MaxIdent: 8, Versions: nil, CeremonySoon: cerem, Rich: cerem}
+	if cerem && t.Choose("c14.bigtxs", 3) != 0 {
+		o.Versions = []config.ConsensusVerson{config.ConsensusV11, config.ConsensusV12} // payloads above 3 KB exist from upgrade 11 on
+	}
 	s := scen.New(r, o)
 	defer s.Close()
-	t := r.Tape
 	// small limits in some runs so that the per-address and global limits are reached
 	if t.Choose("c14.limits", 3) == 0 {
 		s.Cfg.Mempool.TxPoolAddrExecutableLimit = 2 + t.Choose("c14.execlimit", 3)
@@ -68,14 +77,50 @@ func runC14(r *vfw.Run) {
 	defer func() { w.Preempt = false }()
 	accepted := map[common.Hash]*types.Transaction{}
 	included := map[common.Hash]bool{}
+	invalidated := map[common.Hash]bool{} // accepted transactions that were invalid against the committed state after some block
 	var shared []*types.Transaction // transactions other clients may re-submit
 	syncing := false
 	clientsDone := 0
 	nclients := 2 + t.Choose("c14.nclients", 3)
+	if cerem {
+		nclients += t.Choose("c14.nclients.more", 3)
+	}
 	blocksWithTxs := 0
 	blocksWhileSubmitting := 0
 	viol := func(pred, format string, a ...interface{}) { r.Violate(pred, format, a...) }
 
+	maxGas := types.MaxBlockSize(s.Cfg.Consensus.EnableUpgrade11)
+	// drawPayload: nothing, or a payload that makes the transaction a given fraction of the block gas cap (10 gas per byte)
+	drawPayload := func() []byte {
+		fr := []int{0, 0, 40, 4, 3, 2}[t.Choose("c14.payload", 6)]
+		if n.App.State.ValidationPeriod() >= state.LongSessionPeriod {
+			fr = []int{0, 40, 4, 4, 3, 3, 2}[t.Choose("c14.payload.session", 7)] // the sessions are when free priority transactions fill blocks
+		}
+		if fr == 0 {
+			return nil
+		}
+		return bytes.Repeat([]byte{0x5a}, int(maxGas)/10/fr-200)
+	}
+	nextEpochNonce := map[common.Address]uint32{}
+	// mkKind: kind 1 = evidence transaction, 2 = long-answers transaction (both priority types, free of charge, payload
+	// not examined before the first validation), anything else = transfer
+	mkKind := func(id *scen.Ident, nonce uint32, epoch uint16, amount int64, kind int, payload []byte) *types.Transaction {
+		to := funded[(id.Idx+1)%len(funded)].Addr
+		tx := &types.Transaction{AccountNonce: nonce, Epoch: epoch, Type: types.SendTx, To: &to, Amount: big.NewInt(amount), Payload: payload}
+		switch kind {
+		case 1:
+			tx.Type, tx.To, tx.Amount = types.EvidenceTx, nil, nil
+		case 2:
+			tx.Type, tx.To, tx.Amount = types.SubmitLongAnswersTx, nil, nil
+		}
+		f := fee.CalculateFee(n.App.ValidatorsCache.NetworkSize(), scen.FeeRate(n), tx)
+		tx.MaxFee = new(big.Int).Div(new(big.Int).Mul(f, big.NewInt(11)), big.NewInt(10)) // (a max fee that buys more gas than a block holds is refused)
+		st, err := types.SignTx(tx, id.Key)
+		if err != nil {
+			r.Trouble("sign: %v", err)
+		}
+		return st
+	}
 	mkTx := func(id *scen.Ident, nonce uint32, epoch uint16, amount int64) *types.Transaction {
 		to := funded[(id.Idx+1)%len(funded)].Addr
 		tx := &types.Transaction{AccountNonce: nonce, Epoch: epoch, Type: types.SendTx, To: &to, Amount: big.NewInt(amount)}
@@ -93,8 +138,12 @@ func runC14(r *vfw.Run) {
 		w.Spawn(n.Ctx, fmt.Sprintf("client%d", c), func() {
 			defer func() { clientsDone++ }()
 			ntx := 3 + t.Choose("c14.ntx", 6)
+			if cerem {
+				ntx += 4 + t.Choose("c14.ntx.more", 8)
+			}
 			base := n.App.State.GetNonce(id.Addr)
 			ep := n.App.State.Epoch()
+			seq, switched := uint32(0), false // transactions made after an epoch switch continue the pool's nonce in order
 			// each client owns a nonce window of its sender (two clients may share a sender: windows overlap on purpose)
 			order := make([]int, ntx)
 			for i := range order {
@@ -111,8 +160,43 @@ func runC14(r *vfw.Run) {
 				if len(shared) > 0 && t.Choose("c14.resubmit", 5) == 0 {
 					tx = shared[t.Choose("c14.which", len(shared))]
 					r.Probe("client_resubmits_known_tx")
+				} else if cerem && n.App.State.Epoch() == ep && t.Choose("c14.nextepoch", 6) == 0 {
+					// signed for the next epoch ahead of the switch (valid for the pool, not yet for a block)
+					nextEpochNonce[id.Addr]++
+					tx = mkTx(id, nextEpochNonce[id.Addr], ep+1, int64(7000+c*100+k))
+					r.Probe("client_submits_next_epoch_tx")
 				} else {
-					tx = mkTx(id, base+uint32(1+k), ep, int64(1000+c*100+k))
+					nonce := base + uint32(1+k)
+					if cerem {
+						if cur := n.App.State.Epoch(); cur != ep {
+							// the epoch has switched under the client: it goes on behind what the pool knows of its sender
+							ep, base, seq, switched = cur, n.App.NonceCache.GetNonce(id.Addr, cur), 0, true
+							r.Probe("client_continues_in_new_epoch")
+						}
+						if !switched && n.App.State.ValidationPeriod() >= state.LongSessionPeriod {
+							// from the long session on the client continues in order behind what the pool holds of its sender:
+							// runs of transfers with a priority transaction behind them become executable together
+							base, seq, switched = n.App.NonceCache.GetNonce(id.Addr, ep), 0, true
+						}
+						if switched {
+							seq++
+							nonce = base + seq
+						}
+					}
+					kind := 0
+					var payload []byte
+					if cerem {
+						if n.App.State.ValidationPeriod() != state.NonePeriod {
+							kind = t.Choose("c14.txkind", 3) // 0 transfer, 1 evidence, 2 long answers
+							r.Probe(fmt.Sprintf("client_submits_in_period_%d_kind_%d", n.App.State.ValidationPeriod(), kind))
+						}
+						payload = drawPayload()
+					}
+					if kind != 0 || payload != nil {
+						tx = mkKind(id, nonce, ep, int64(1000+c*100+k), kind, payload)
+					} else {
+						tx = mkTx(id, nonce, ep, int64(1000+c*100+k))
+					}
 					shared = append(shared, tx)
 					if peerBuilds {
 						switch t.Choose("c14.topeer", 4) {
@@ -137,8 +221,13 @@ func runC14(r *vfw.Run) {
 				if err == nil && !wasSyncing && !syncing {
 					accepted[tx.Hash()] = tx
 				}
-				r.Logf("client%d submits nonce=%d err=%v syncing=%v", c, tx.AccountNonce, err, wasSyncing)
-				if t.Choose("c14.pause", 3) != 0 {
+				r.Logf("client%d submits %x type=%d epoch=%d nonce=%d size=%d err=%v syncing=%v", c, tx.Hash().Bytes()[:4], tx.Type, tx.Epoch, tx.AccountNonce, len(tx.Payload), err, wasSyncing)
+				if cerem && n.App.State.ValidationPeriod() >= state.LongSessionPeriod {
+					// everybody submits at once when the long session opens
+					w.Sleep(time.Duration(1+t.Choose("c14.pausems.session", 3000)) * time.Millisecond)
+				} else if cerem && t.Choose("c14.longpause", 2) == 0 {
+					w.Sleep(time.Duration(1+t.Choose("c14.pauses", 300)) * time.Second) // spread over the ceremony and the epoch behind it
+				} else if t.Choose("c14.pause", 3) != 0 {
 					w.Sleep(time.Duration(1+t.Choose("c14.pausems", 9000)) * time.Millisecond)
 				}
 			}
@@ -171,10 +260,16 @@ func runC14(r *vfw.Run) {
 		}
 	})
 	// ---- engine task = the main task ----
-	maxGas := types.MaxBlockSize(s.Cfg.Consensus.EnableUpgrade11)
 	rounds := 4 + t.Choose("c14.rounds", 6)
+	if cerem {
+		rounds = 30 + t.Choose("c14.rounds.ceremony", 30)
+	}
 	for i := 0; i < rounds; i++ {
-		w.Sleep(time.Duration(10+t.Choose("c14.blockdt", 15)) * time.Second)
+		if cerem {
+			w.Sleep(time.Duration(10+t.Choose("c14.blockdt.ceremony", 80)) * time.Second)
+		} else {
+			w.Sleep(time.Duration(10+t.Choose("c14.blockdt", 15)) * time.Second)
+		}
 		if syncing {
 			continue // the engine neither proposes nor inserts its own blocks while the node is syncing
 		}
@@ -203,10 +298,29 @@ func runC14(r *vfw.Run) {
 				viol("C14:candidate-nonces-not-consecutive", "sender %x: nonce %d follows %d (committed nonce %d) in the candidate list of %d txs", snd[:6], tx.AccountNonce, last[snd], n.App.State.GetNonce(snd), len(list))
 			}
 			last[snd] = tx.AccountNonce
-			if gas > maxGas {
-				viol("C14:candidate-list-exceeds-gas-cap", "position %d: %d gas already used of %d", j, gas, maxGas)
-			}
 			gas += uint64(fee.CalculateGas(tx))
+			if gas > maxGas {
+				viol("C14:candidate-list-exceeds-gas-cap", "the first %d of %d transactions of the candidate list take %d gas, the block gas cap is %d", j+1, len(list), gas, maxGas)
+			}
+		}
+		if gas > maxGas/2 {
+			r.Probe("candidate_list_above_half_of_the_gas_cap")
+		}
+		{
+			prevOrdinary := map[common.Address]bool{}
+			for _, tx := range list {
+				snd, _ := types.Sender(tx)
+				if _, pri := types.CeremonialTxs[tx.Type]; pri {
+					if prevOrdinary[snd] {
+						r.Probe("candidate_list_with_a_priority_tx_behind_ordinary_ones_of_its_sender")
+					}
+				} else {
+					prevOrdinary[snd] = true
+				}
+			}
+		}
+		if gas > maxGas/10*9 {
+			r.Probe("candidate_list_above_90_percent_of_the_gas_cap")
 		}
 		// build and insert a block (ProposeBlock takes its own list; ResetTo runs inside AddBlock)
 		// submissions that land exactly while the block is being inserted (ResetTo): tasks made runnable right now
@@ -314,15 +428,26 @@ func runC14(r *vfw.Run) {
 			ro, err := n.App.Readonly(n.Chain.Head.Height())
 			if err == nil {
 				minFee := fee.GetFeePerGasForNetwork(ro.ValidatorsCache.NetworkSize())
-				lost := map[common.Address]uint32{} // lowest nonce of a sender that is legitimately gone
+				type sndEp struct {
+					a common.Address
+					e uint16
+				}
+				lost := map[sndEp]uint32{} // lowest nonce of a sender (per epoch) that is legitimately gone
+				// "made invalid" is for good: a transfer that a ceremony period made unacceptable (and that the pool dropped)
+				// does not have to come back when the period is over
+				for h, tx := range accepted {
+					if !invalidated[h] && validation.ValidateTx(ro, tx, minFee, validation.MempoolTx) != nil {
+						invalidated[h] = true
+					}
+				}
 				gone := func(tx *types.Transaction) bool {
-					return included[tx.Hash()] || validation.ValidateTx(ro, tx, minFee, validation.MempoolTx) != nil
+					return included[tx.Hash()] || invalidated[tx.Hash()]
 				}
 				for _, tx := range accepted {
 					if n.Pool.GetTx(tx.Hash()) == nil && gone(tx) {
 						snd, _ := types.Sender(tx)
-						if cur, ok := lost[snd]; !ok || tx.AccountNonce < cur {
-							lost[snd] = tx.AccountNonce
+						if cur, ok := lost[sndEp{snd, tx.Epoch}]; !ok || tx.AccountNonce < cur {
+							lost[sndEp{snd, tx.Epoch}] = tx.AccountNonce
 						}
 					}
 				}
@@ -331,10 +456,10 @@ func runC14(r *vfw.Run) {
 						continue
 					}
 					snd, _ := types.Sender(tx)
-					if ln, ok := lost[snd]; ok && ln < tx.AccountNonce && !included[h] {
-						continue // removed together with an earlier transaction of its sender that became invalid
+					if ln, ok := lost[sndEp{snd, tx.Epoch}]; ok && ln < tx.AccountNonce && !included[h] {
+						continue // removed together with an earlier transaction of its sender (same epoch) that became invalid
 					}
-					viol("C14:accepted-transaction-lost", "tx %x of %x nonce %d was accepted, is still valid against the committed state (nonce %d), is in no block and is no longer retrievable", h.Bytes()[:6], snd[:6], tx.AccountNonce, n.App.State.GetNonce(snd))
+					viol("C14:accepted-transaction-lost", "tx %x of %x epoch %d nonce %d was accepted, is still valid against the committed state (epoch %d, sender's epoch %d nonce %d) after block %d, is in no block and is no longer retrievable", h.Bytes()[:6], snd[:6], tx.Epoch, tx.AccountNonce, n.App.State.Epoch(), n.App.State.GetEpoch(snd), n.App.State.GetNonce(snd), p.Block.Height())
 				}
 			}
 		}
